@@ -27,6 +27,36 @@ PROPS["C15"].update({
 })
 
 # Properties not claimed, with the reason (kept current by hand).
+PROPS["C20"] = {
+    "shards": 16,
+    "quick_budget_s": 120,
+    "thorough_budget_s": 1200,
+    "worker": "worker-reg",
+    "extra_builds": ["reg"],
+    "stuck_s": 120,
+    "floors": {"any": {"histories-fully-correct": 350, "errors-attributed-to-the-right-key": 60, "histories-with-keys-sharing-a-name": 250,
+                       "histories-completing-out-of-request-order": 150, "keys-with-right-content": 1000, "releases-published": 100,
+                       "histories:keys=1": 30, "histories:keys=6": 30}},
+    "rule": "Each of the 16 worker processes starts an in-process Warg server (loopback, operator key of the repository's own test support) "
+            "and publishes 4 packages with 7 releases in non-monotonic version order (so latest != last published; one package has only a "
+            "pre-release); every release is a valid component whose custom section names `name@version` and pads it to 40 B .. 400 KB, so "
+            "returned bytes identify the release. A history is one RegistryPackageResolver::resolve call (fresh client cache) on 1-6 distinct "
+            "keys in random order with distinct spans; half of the histories ask for one package several times (unversioned and at several "
+            "versions), a quarter contain keys naming a missing package, a missing version or the pre-release-only package. The guarded hook "
+            "(feature `verif`) delays download task i by rank(i)*12 ms for a random permutation (a quarter of the histories undelayed) and "
+            "records the order in which results are received; the tokio runtime has 1, 2, 4 or 8 worker threads depending on the shard. "
+            "Oracle: without faults the result has exactly the requested keys and each key's bytes carry the tag published under its name and "
+            "version (highest non-pre-release for unversioned keys); with faults the call fails with PackageDoesNotExist / "
+            "PackageVersionDoesNotExist / PackageNoReleases whose name, version and span are those of a requested key with that fault. "
+            "Non-trivial: every history; distinct by key count, key pattern and the completion order observed.",
+    "assumptions": ["the completion order is the order in which `resolve` receives the task results (hook `completed`), forced by the delays and perturbed by content size and worker count; "
+                    "orders that need the server itself to answer out of order are not forced",
+                    "when several keys of one request are faulty any one of them may be reported"],
+    "technique": "runtime monitor: history checker with unique content tags + schedule perturbation through a guarded delay/observe hook",
+    "level_text": "Every resolve call is a recorded history (keys, delays, observed completion order, result) checked against what the harness itself published.",
+    "level_note": "Held on the observed histories and completion orders; evidence lists how many histories completed out of request order.",
+}
+
 NOT_APPLICABLE = {}
 
 # Commits in /repo that add the guarded hooks.
